@@ -836,6 +836,100 @@ def history_search(docs=None, extra_note=""):
         shutil.rmtree(tmp, ignore_errors=True)
 
 
+def interleave_search(cap=220):
+    """Lazily consumed results: extractors are generators, so two extractions can be alive in ONE thread.  For every ordered pair of
+    multi-result documents (A, B) (archive fixtures, generated archives / books; B may be a second copy of A):
+      (i)  take the first result of A, extract B completely, continue A;   (ii) first of A, first of B, rest of A, rest of B;
+    each result list against the document extracted alone in a forked pristine process; temp-dir residue afterwards."""
+    import sharepoint2text
+    tmp = tempfile.mkdtemp(prefix="c15_inter_")
+    try:
+        docs = [(l, p) for (l, p) in corrupted_archives(tmp, per_file=1) if l.endswith("(intact)")] + generated_corpus(tmp)
+
+        def results(p, gen=False):
+            ex = sharepoint2text.get_extractor(p)
+            g = ex(io.BytesIO(open(p, "rb").read()), p)
+            return g
+
+        def sig(r):
+            return hashlib.sha256(json.dumps(r.to_json(), sort_keys=True, default=str).encode()).hexdigest()[:16]
+
+        def drain(g, out):
+            try:
+                for r in g:
+                    out.append(sig(r))
+            except Exception as e:  # noqa
+                out.append("ERR:" + type(e).__name__)
+            return out
+
+        def alone(p):
+            try:
+                g = results(p)
+            except Exception as e:  # noqa
+                return ["ERR:" + type(e).__name__]
+            return drain(g, [])
+        base = {}
+        for (_l, p) in docs:
+            r = forked(lambda p=p: alone(p)).get("ok")
+            if r is not None and len([x for x in r if not x.startswith("ERR:")]) >= 2:
+                base[p] = r
+        multi = [(l, p) for (l, p) in docs if p in base]
+        ext = lambda p: os.path.basename(p).split(".", 1)[-1]
+        pairs = [(a, b) for a in multi for b in multi]
+        pairs.sort(key=lambda ab: (ext(ab[0][1]) != ext(ab[1][1]), ab[0][1] != ab[1][1]))      # same document twice, then same format, then the rest
+        tried = 0
+        for ((la, pa), (lb, pb)) in pairs[:cap]:
+            for mode in ("B completely while A is suspended after its first result", "A and B both suspended after their first result, then A, then B"):
+                def run(pa=pa, pb=pb, mode=mode):
+                    before = global_state()
+                    ga = results(pa)
+                    out_a, out_b = [], []
+                    try:
+                        out_a.append(sig(next(ga)))
+                    except StopIteration:
+                        pass
+                    except Exception as e:  # noqa
+                        out_a.append("ERR:" + type(e).__name__)
+                    gb = results(pb)
+                    if mode.startswith("B completely"):
+                        drain(gb, out_b)
+                        drain(ga, out_a)
+                    else:
+                        try:
+                            out_b.append(sig(next(gb)))
+                        except StopIteration:
+                            pass
+                        except Exception as e:  # noqa
+                            out_b.append("ERR:" + type(e).__name__)
+                        drain(ga, out_a)
+                        drain(gb, out_b)
+                    del ga, gb
+                    leaks = [m for m in state_diff(before, global_state()) if m[0] != "open_fds"]
+                    return [out_a, out_b, leaks]
+                tried += 1
+                r = forked(run, timeout=120).get("ok")
+                if not r:
+                    continue
+                out_a, out_b, leaks = r
+                who = None
+                if out_a != base[pa]:
+                    who, exp, got, lab = "A", base[pa], out_a, la
+                elif out_b != base[pb]:
+                    who, exp, got, lab = "B", base[pb], out_b, lb
+                if who or leaks:
+                    return {"reproduced": True, "target": la if who != "B" else lb,
+                            "inputs": {"history": f"one thread, two lazily consumed extractions: A = {la}, B = {lb}" + (" (a second copy of the same bytes)" if pa == pb else "") + f"; {mode}",
+                                       "document_A": la, "bytes_hex_A": _hex(pa), "document_B": lb, "bytes_hex_B": _hex(pb) if pb != pa else None},
+                            "expected": (f"extraction {who} yields the results it yields alone: {len(exp)} result(s) {exp}" if who else
+                                         "process-global state (temporary files) restored once both generators are exhausted"),
+                            "observed": (f"{len(got)} result(s) {got}" if who else f"{leaks[0][0]}: {leaks[0][1]}"),
+                            "search": f"interleaved generators over {len(multi)} multi-result documents ({tried} interleavings tried)"}
+        return None
+    finally:
+        import shutil
+        shutil.rmtree(tmp, ignore_errors=True)
+
+
 def _hex(p, cap=4000):
     try:
         b = open(p, "rb").read()
@@ -1437,11 +1531,17 @@ def _find(req):
         plan = ["serial", "history", "memo", "schedule"]
     else:
         plan = ["history", "serial", "fixtures"]
+    if hint.get("interleave") and "interleave" not in plan:
+        plan = ["interleave"] + plan
+    elif "history" in plan:
+        plan = plan + ["interleave"]
     tried = []
     for step in plan:
         r = None
         try:
-            if step == "memo":
+            if step == "interleave":
+                r = interleave_search()
+            elif step == "memo":
                 for w in ([writer] if writer else []) + list(hint.get("accessors") or []):
                     r = memo_search(rel, w)
                     if r:
